@@ -1,5 +1,8 @@
+import props as _props
+
 PROP = {
     "coq": ["C09"],
+    "extra": [_props.race_detector_run("C09")],
     "exhaustive": False,
     "rule": "Real server on loopback TCP (MaxClients 1..4) driven through deterministic traces: connect, connect-with-the-accept-goroutine-"
             "held-between-Accept-and-the-admission-critical-section (verifYield), release, request probe, client disconnect, protocol "
